@@ -99,6 +99,9 @@ func (w *envelopeWriter) write(env *envelope) *Error {
 		return errorf(CodeUnknown, "write envelope: %w", err)
 	}
 	if _, err := io.Copy(w.writer, env.Data); err != nil {
+		if connectErr, ok := asError(err); ok {
+			return connectErr
+		}
 		return errorf(CodeUnknown, "write message: %w", err)
 	}
 	return nil
@@ -212,6 +215,9 @@ func (r *envelopeReader) Read(env *envelope) *Error {
 	if r.readMaxBytes > 0 && size > r.readMaxBytes {
 		_, err := io.CopyN(io.Discard, r.reader, int64(size))
 		if err != nil && !errors.Is(err, io.EOF) {
+			if connectErr, ok := asError(err); ok {
+				return connectErr
+			}
 			return errorf(CodeUnknown, "read enveloped message: %w", err)
 		}
 		return errorf(CodeInvalidArgument, "message size %d is larger than configured max %d", size, r.readMaxBytes)
@@ -226,6 +232,10 @@ func (r *envelopeReader) Read(env *envelope) *Error {
 		for remaining > 0 {
 			bytesRead, err := io.CopyN(env.Data, r.reader, remaining)
 			if err != nil && !errors.Is(err, io.EOF) {
+				if connectErr, ok := asError(err); ok {
+					// Already coded (for example, because the context was canceled).
+					return connectErr
+				}
 				return errorf(CodeUnknown, "read enveloped message: %w", err)
 			}
 			if errors.Is(err, io.EOF) && bytesRead == 0 {
